@@ -24,7 +24,8 @@ def gen_component(rng, kind):
     return {"var_type": INT, "elements": [lo, lo + rng.randint(1, 8)]}
   if kind == CAT:
     k = rng.randint(2, 4)
-    return {"var_type": CAT, "elements": sorted(rng.sample(range(1, 12), k))}
+    # enum indexes are unique ints in ANY declared order (valid; not necessarily increasing)
+    return {"var_type": CAT, "elements": rng.sample(range(1, 12), k)}
   k = rng.randint(2, 5)
   vals = sorted({round(rng.uniform(-20, 20), 1) for _ in range(k + 2)})[:k]
   while len(vals) < 2:
